@@ -372,6 +372,8 @@ Partially_Reduced_Product<D1, D2, R>
   y.reduce();
   d1.time_elapse_assign(y.d1);
   d2.time_elapse_assign(y.d2);
+  // The time-elapses of reduced components need not be reduced.
+  clear_reduced_flag();
   PPL_ASSERT_HEAVY(OK());
 }
 
